@@ -174,6 +174,10 @@ Definition dis_zero (a : dual) : bool := deqb false a dzero.
 (* PartialOrd ord.rs: on the real part only *)
 Definition dltb (a b : dual) : bool := nltb (re a) (re b).
 Definition dleb (a b : dual) : bool := nleb (re a) (re b).
+(* Signed::abs_sub signed.rs:31-37: `if self <= other { Dual::new(0.0, Vec::new()) } else { self - other }`;
+   num_traits' f64::abs_sub is the same test on plain floats *)
+Definition fabs_sub (a b : T) : T := if nleb a b then n0 else nsub a b.
+Definition dabs_sub (p : bool) (a b : dual) : dual := if dleb a b then dzero else dsub p a b.
 (* Gradient1::gradient1 dual.rs:272-293 *)
 Definition gradient1_gen (vars : list name) (d : list T) (ws : list name) : list T :=
   let w := dedup ws in
@@ -268,6 +272,8 @@ Definition d2eqb_f (a : dual2) (r : T) : bool := d2eqb false (dual2_new r []) a.
 Definition d2is_zero (a : dual2) : bool := d2eqb false a d2zero.
 Definition d2ltb (a b : dual2) : bool := nltb (re2 a) (re2 b).
 Definition d2leb (a b : dual2) : bool := nleb (re2 a) (re2 b).
+(* Signed::abs_sub signed.rs:71-77 *)
+Definition d2abs_sub (p : bool) (a b : dual2) : dual2 := if d2leb a b then d2zero else d2sub p a b.
 
 (* Gradient1 / Gradient2 for Dual2 dual.rs:272-374 *)
 Definition gradient1_2 (a : dual2) (ws : list name) : list T := gradient1_gen (vs2 a) (du2 a) ws.
@@ -301,6 +307,33 @@ Definition dual2_of_dual (a : dual) : dual2 :=
   let n := length (du a) in mkDual2 (re a) (vs a) (du a) (mzeros n n).
 Definition dual_of_f (r : T) : dual := dual_new r [].
 Definition dual2_of_f (r : T) : dual2 := dual2_new r [].
+(* From<Dual> / From<&Dual> / From<Dual2> / From<&Dual2> for f64 from.rs:5-27 *)
+Definition f_of_dual (a : dual) : T := re a.
+Definition f_of_dual2 (a : dual2) : T := re2 a.
+
+(* ---------------------------------------------------------------- constructors on another number's
+   variables dual.rs:519-551 / 671-704: build the number with new / try_new (a FRESH Arc: never shared
+   with `other`), then `to_new_vars(other.vars(), None)`; `None` = the relationship is computed by
+   vars_cmp.  `other` may be of either order: only its variable list is used.
+   `to_new_vars_auto p a target` is the direct public call `a.to_new_vars(&target, None)` where p says
+   that `target` is a's own Arc. *)
+Definition to_new_vars_auto (p : bool) (a : dual) (target : list name) : dual :=
+  to_new_vars a target (vars_cmp p (vs a) target).
+Definition to_new_vars2_auto (p : bool) (a : dual2) (target : list name) : dual2 :=
+  to_new_vars2 a target (vars_cmp p (vs2 a) target).
+(* the public `a.to_union_vars(&b, None)`: p = the two numbers share their Arc *)
+Definition to_union_vars_auto (p : bool) (a b : dual) : dual * dual :=
+  to_union_vars a b (vars_cmp p (vs a) (vs b)).
+Definition to_union_vars2_auto (p : bool) (a b : dual2) : dual2 * dual2 :=
+  to_union_vars2 a b (vars_cmp p (vs2 a) (vs2 b)).
+Definition dual_new_from (other : list name) (r : T) (vars : list name) : dual :=
+  to_new_vars_auto false (dual_new r vars) other.
+Definition dual_try_new_from (other : list name) (r : T) (vars : list name) (d : list T) : outcome dual :=
+  do n <- dual_try_new r vars d; Ok (to_new_vars_auto false n other).
+Definition dual2_new_from (other : list name) (r : T) (vars : list name) : dual2 :=
+  to_new_vars2_auto false (dual2_new r vars) other.
+Definition dual2_try_new_from (other : list name) (r : T) (vars : list name) (d d2 : list T) : outcome dual2 :=
+  do n <- dual2_try_new r vars d d2; Ok (to_new_vars2_auto false n other).
 
 End Dual.
 Arguments dual T : clear implicits.
